@@ -233,16 +233,23 @@ Definition prog_ok (x : option (list Qc)) (y : list Qc) (e : option exn) (steps 
                      {"op": "recreate", "n": 3, "strategy": "pc", "alpha": 1.0, "a": None, "beta": 0.5, "exp": 2.0, "smooth": 1.0},
                      {"op": "recreate", "n": 4, "strategy": "cubic", "alpha": 1.0, "a": None, "beta": 0.5, "exp": 2.0, "smooth": 1.0},
                      {"op": "trend", "coef": [0, 1], "normalized": True}, {"op": "repeat", "r": 2}, {"op": "append", "periodic": True}]
+            changers = [{"op": "shift_y", "v": 5.0}, {"op": "scale_y", "v": -2.0}, {"op": "shift_x", "v": 2.5}, {"op": "scale_x", "v": 4.0}]
             for req in again:
                 if req["op"] not in pool:
                     continue
-                m = rng.randint(6, 9)
-                chg = rng.choice([{"op": "shift_y", "v": 5.0}, {"op": "scale_y", "v": -2.0}, {"op": "shift_x", "v": 2.5}, {"op": "scale_x", "v": 4.0}])
-                if chg["op"] not in pool:
-                    continue
-                script = [chg, dict(req), {"op": "restore"}, dict(req)]
-                cases.append({"x": gens.sorted_x(rng, m, rng.choice(["uniform", "dyadic", "int"])), "y": gens.values(rng, m), "script": script, "seed": 1,
-                              "len": len(script), "pool": [], "as_list": False, "int_x": False, "x_none": False, "invalid": False})
+                # (every changer for the requests that fit something to the data — what a change of units leaves behind in the object,
+                #  an accumulated scale factor for instance, must not reach a request made after the restore; one at random for the others)
+                for chg in (changers if req["op"] in ("smooth", "trend", "interpolate") else [rng.choice(changers)]):
+                    if chg["op"] not in pool:
+                        continue
+                    m = rng.randint(6, 9)
+                    script = [dict(chg), dict(req), {"op": "restore"}, dict(req)]
+                    cases.append({"x": gens.sorted_x(rng, m, rng.choice(["uniform", "dyadic", "int"])), "y": gens.values(rng, m), "script": script, "seed": 1,
+                                  "len": len(script), "pool": [], "as_list": False, "int_x": False, "x_none": False, "invalid": False})
+                    # ... and without the first request: change of units, restore, request
+                    script = [dict(chg), {"op": "restore"}, dict(req)]
+                    cases.append({"x": gens.sorted_x(rng, m, rng.choice(["uniform", "dyadic", "int"])), "y": gens.values(rng, m), "script": script, "seed": 1,
+                                  "len": len(script), "pool": [], "as_list": False, "int_x": False, "x_none": False, "invalid": False})
         if "truncate_by_index" in pool and not self.exhaustive_domain:
             # truncate_by_index with the stop omitted when reference and working series have different lengths (after down-sampling the
             # reference is longer, after a recreation shorter): all series are cut at the same abscissae ... by Python's slice rule
@@ -302,6 +309,19 @@ Definition prog_ok (x : option (list Qc)) (y : list Qc) (e : option exn) (steps 
                     cases.append({"x": base_x, "y": base_y, "script": [alpha[i] for i in seq], "seed": 1, "len": n, "pool": [],
                                   "as_list": False, "int_x": False, "x_none": False, "invalid": False})
         if self.invalid:
+            # fixed points that are not samples of an INTEGER-typed x (sample numbers, x=None): 4.5 is not the sample 4
+            for x_none in (False, True):
+                m = rng.randint(8, 11)
+                xs_ = [float(v) for v in range(m)] if x_none else [float(v) for v in sorted(rng.sample(range(0, 40), m))]
+                for frac in (0.5, 0.25):
+                    bad_ = {"op": "integral_match", "rt": "trapezoid", "rr": "rectangle", "alpha": 1.0,
+                            "fixed_values": [xs_[0], xs_[m // 2] + frac, xs_[-1]], "invalid": "fixed_not_in_x"}
+                    for pre in ([], [{"op": "shift_y", "v": -1.0}, {"op": "truncate_by_index", "start": 1, "stop": None}]):
+                        script = [dict(p_) for p_ in pre] + [dict(bad_)]
+                        if pre:      # (after the index truncation the first sample is xs_[1])
+                            script[-1]["fixed_values"] = [xs_[1], xs_[m // 2] + frac, xs_[-1]]
+                        cases.append({"x": xs_, "y": gens.values(rng, m), "script": script, "seed": 1, "len": len(script), "pool": [], "as_list": False,
+                                      "int_x": True, "x_none": x_none, "invalid": False})
             cases.append({"x": [0.0, 1.0, 2.0], "y": [1.0, 2.0], "seed": 1, "len": 0, "pool": [], "as_list": False, "int_x": False,
                           "x_none": False, "invalid": False, "ctor": "len-mismatch"})
             cases.append({"x": [0.0, 1.0, 2.0], "y": [1.0, 2.0, 3.0], "seed": 1, "len": 0, "pool": [], "as_list": False, "int_x": False,
@@ -447,7 +467,8 @@ Definition prog_ok (x : option (list Qc)) (y : list Qc) (e : option exn) (steps 
             return {"op": "restore"}
         if name == "slice_by_index":
             a = rng.randint(0, max(0, n - 1))
-            return {"op": name, "start": a, "stop": rng.choice([None, rng.randint(0, n), -1, -2]), "step": rng.choice([1, 1, 2, 3, -1])}
+            # (negative stops count from the end, also beyond the start of the series: Python then gives the empty slice)
+            return {"op": name, "start": a, "stop": rng.choice([None, rng.randint(0, n), -1, -2, -n, -n - 1, -n - 4]), "step": rng.choice([1, 1, 2, 3, -1])}
         if name == "slice_by_value":
             i = rng.randint(0, n - 1)
             j = rng.randint(i, n - 1)
